@@ -31,6 +31,9 @@ def run(chk, ctx) -> None:
     # "all hole cards to be shown": a card counts as shown only when both its rank and its suit are known
     from .helpers import Refile, known_card_helpers
     known_card_helpers(chk, ctx, 'C12.tournament')
+    # "cannot win": hands are compared (best shown <= own) by the one order all hand types share
+    from .c04 import _operators
+    _operators(Refile(chk, {'C04.operators': 'C12.coverage'}, only=lambda r, c: c.startswith('Hand')), ctx)
     # the player who showed or mucked - the one named, when one is named - is the one who leaves the queue of players still to show
     from .c08 import _applies_to, discovered
     _applies_to(Refile(chk, {'C08.applies_to': 'C12.order'}, only=lambda r, c: c == 'State.show_or_muck_hole_cards'), ctx, discovered(ctx))
